@@ -218,7 +218,8 @@ class _CommonFile:
                     "username occurs multiple times in source file: %r",
                     key,
                 )
-                skipped += line
+                # NOTE: not preserving the shadowed line -- it's dead while the first entry
+                #       exists, and would bring the user back once that entry is deleted.
                 continue
 
             # flush buffer of skipped whitespace lines
